@@ -289,11 +289,14 @@ func (t *capTB) Logf(f string, a ...any) {
 		t.logs = append(t.logs, fmt.Sprintf(f, a...))
 	}
 }
-func (t *capTB) Log(a ...any)              { t.Logf("%s", fmt.Sprint(a...)) }
-func (t *capTB) Skipf(f string, a ...any)  {}
-func (t *capTB) Skip(a ...any)             {}
-func (t *capTB) SkipNow()                  {}
-func (t *capTB) Errorf(f string, a ...any) { t.failed = true; t.msgs = append(t.msgs, fmt.Sprintf(f, a...)) }
+func (t *capTB) Log(a ...any)             { t.Logf("%s", fmt.Sprint(a...)) }
+func (t *capTB) Skipf(f string, a ...any) {}
+func (t *capTB) Skip(a ...any)            {}
+func (t *capTB) SkipNow()                 {}
+func (t *capTB) Errorf(f string, a ...any) {
+	t.failed = true
+	t.msgs = append(t.msgs, fmt.Sprintf(f, a...))
+}
 func (t *capTB) Error(a ...any)            { t.Errorf("%s", fmt.Sprint(a...)) }
 func (t *capTB) Fatalf(f string, a ...any) { t.Errorf(f, a...) }
 func (t *capTB) Fatal(a ...any)            { t.Errorf("%s", fmt.Sprint(a...)) }
